@@ -34,6 +34,9 @@ func (lam *Lambda) Call(s *Scope, args List, depth int) (result Object) {
 		// and assigned instead of the closed over one.
 		ss.parents = []*Scope{lam.Closure, s}
 		ss.Macro = lam.Closure.Macro
+		// A go in the body targets a tagbody around the place the lambda was
+		// created in, whoever calls it.
+		ss.TagBody = ss.TagBody || lam.Closure.TagBody
 	} else if s.Keep { // flavors instance uses this
 		ss.parents = append(ss.parents, s)
 	}
